@@ -10,14 +10,19 @@
 (* (probe run) so that the emitted crash scripts are behaviours of the real program.  *)
 EXTENDS FsPersist, TLC, Json
 
-CONSTANTS Prog, WriteAll, MaxDown, MaxHist
+CONSTANTS Prog, WriteAll, MaxDown, MaxHist,
+          O1, O2, O3, O4, O5, O6, O7, O8, O9, O10, O11, O12   \* the observed program, one step name per constant ("" = unused)
 VARIABLES hist, ip, ndown
 vars == <<dir, ddir, pend, vol, dur, up, busy, cur, nimp, mem, okG, allowed, fresh, hist, ip, ndown>>
 
 ProgFixed == <<"tmp_created", "tmp_written", "tmp_synced", "renamed", "marker_created", "marker_synced", "dir_synced">>
 ProgLegacy == <<"marker_removed", "tmp_created", "tmp_written", "tmp_synced", "renamed", "marker_created", "marker_synced">>
+ProgMarkerFirst == <<"marker_removed", "tmp_created", "tmp_written", "tmp_synced", "renamed", "marker_created", "marker_synced", "dir_synced">>
 ProgNoDirSync == <<"tmp_created", "tmp_written", "tmp_synced", "renamed", "marker_created", "marker_synced">>
 ProgNoDataSync == <<"tmp_created", "tmp_written", "renamed", "marker_created", "marker_synced", "dir_synced">>
+
+\* a TLC configuration file cannot hold a sequence: the observed program comes as twelve strings
+ProgObserved == SelectSeq(<<O1, O2, O3, O4, O5, O6, O7, O8, O9, O10, O11, O12>>, LAMBDA x : x # "")
 
 Init == FPInit /\ hist = <<>> /\ ip = 0 /\ ndown = 0
 H(r) == hist' = Append(hist, r)
